@@ -250,6 +250,20 @@ def check_defaults(case, ctx):
     raw = open(p, "rb").read()
     require(raw == sigfile.pack_bits(samples, nbits, want), "defaults:writer-order",
             f"nbits={nbits} wrote {raw.hex()} want {sigfile.pack_bits(samples, nbits, want).hex()}")
+    # the functions called the short way, with the order left out: still exact inverses of each other, and the same as
+    # the documented default order ("big") spelled out
+    from sigpyproc.io import bits
+
+    allb = np.arange(256, dtype=np.uint8)
+    un = bits.unpack(allb.copy(), nbits)
+    require(np.array_equal(un, bits.unpack(allb.copy(), nbits, bitorder="big")), "defaults:unpack-order-omitted", f"nbits={nbits}")
+    back = bits.pack(un.copy(), nbits)
+    if not np.array_equal(back, allb):
+        k = int(np.flatnonzero(back != allb)[0])
+        raise Violation("defaults:pack(unpack)-order-omitted", f"nbits={nbits}: with the bit order left out of both calls, byte {k:#04x} comes back as {int(back[k]):#04x}")
+    require(np.array_equal(bits.pack(un.copy(), nbits), bits.pack(un.copy(), nbits, bitorder="big")), "defaults:pack-order-omitted", f"nbits={nbits}")
+    s2 = rng.integers(0, 1 << nbits, size=per * 7, dtype=np.uint8)
+    require(np.array_equal(bits.unpack(bits.pack(s2.copy(), nbits), nbits), s2), "defaults:unpack(pack)-order-omitted", f"nbits={nbits}")
     return Info(True, (f"default-{nbits}",))
 
 
